@@ -38,6 +38,11 @@ VERIFICATION_FAILURES = [
     "loop ensures not satisfied",
     "assertion failure",
     "failed this",
+    "precondition not met",          # e.g. "precondition not met: index in bounds for this access" (slice/array indexing)
+    "requirement not met",           # e.g. access to a union/enum field in the wrong variant
+    "unable to show termination",
+    "may fail to meet its declared type invariant",
+    "cannot show this call will not unwind",
     "might not be allowed at this call-site",
     "cannot show invariant holds",
     "loop must have a decreases clause",
